@@ -192,6 +192,38 @@ C10_DEFUSE_PART = (G, "gosym_part", dict(name="c10_def_use", entry="internal/zzv
                                               "definition at 15 kinds of type position (the 10 of C09 plus map key, enum base, flags base, type argument, conversion target) x {main, imported "
                                               "namespace}: Validate terminates, does not panic, rejects the model and names the file"))
 
+
+def c10_budget_key(aid, events, outs):
+    # one stable key per family for the family the unchanged tree is known to fail on; the others are keyed per n so that
+    # every size that exceeds its budget is replayed (and reported) on its own
+    o = {x["key"]: x["val"] for x in outs}
+    fam = o.get("family", "?")
+    if aid != "validate-terminates-within-budget":
+        return "c10:budget:%s:%s" % (fam, aid)
+    if fam == "generic-alias-chain":
+        return "c10:budget:generic-alias-chain"
+    return "c10:budget:%s:n=%s" % (fam, o.get("n", "?"))
+
+
+C10_BUDGET_ASSUME = ["models are built at the level dsl.Validate receives them (YAML text -> AST is outside)",
+                     "work = SSA instructions gosym executes inside the real dsl.Validate (verifBounded stops the call at the budget); budget(n) = 8 * (a + b*n + c*n*n) with "
+                     "(a, b, c) fitted to the unchanged tree measured at n = 4, 8, 12, 16 (C10BudgetMeasure): record chain 103128 / 214672 / 354648 / 523504 -> (20000, 17500, 900); "
+                     "closed alias chain 63246 / 101874 / 140502 / 179130 -> (25000, 9700, 0); nested types 84106 / 155262 / 226418 / 297574 -> (13000, 17800, 0); call depth <= 200 + 40 n",
+                     "generic alias chain: the unchanged tree is NOT polynomial (n = 1..6: 53907, 100781, 231765, 688021, 2423113, 9229129 instructions, x3.8 per level; real CLI: "
+                     "n = 10 7.7 s / 1.3 GB, n = 12 140 s / 20 GB); its budget (30000, 25000, 1000) is 2.5 x the closed chain's per-level cost plus a quadratic term and is met for n <= 4 only",
+                     "native replay: the work of the native run is the number of heap objects allocated while dsl.Validate runs (verifBoundedMaxMallocs; stable to +-5 between runs), budget "
+                     "4 * (a' + b'*n + c'*n*n): record chain 414 / 921 / 1618 / 2520 -> (110, 52, 7); closed alias chain 355 / 600 / 845 / 1087 -> (115, 62, 0); nested types "
+                     "131 / 181 / 229 / 278 -> (85, 13, 0); generic alias chain (600, 500, 20) (n = 4: 7018 allocations within, n = 5: 26300 beyond); the native factor is the smaller "
+                     "one so that a run beyond the instruction budget is confirmed natively"]
+C10_BUDGET_PART = (G, "gosym_part", dict(name="c10_validate_budget", entry="internal/zzverif.C10Budget", args_quick=(12, 8), args_thorough=(16, 8), key_fn=c10_budget_key,
+                                         extra_quick=("-max-depth", "2000"), extra_thorough=("-max-depth", "2000"),
+                                         required_sites=("validate-terminates-within-budget", "validate-does-not-panic", "valid-model-accepted"),
+                                         assumptions=C10_BUDGET_ASSUME,
+                                         desc="'terminates promptly' as a polynomial work budget: the real dsl.Validate on VALID models of size n = 1..12 (16) - (a) a chain of n records whose "
+                                              "computed field reads the inner record's computed field twice (v: inner.v + inner.v), (b) a chain of n aliases each instantiating the generic "
+                                              "record Pair on the previous alias twice, (c) n nested [string, ...]* union/vector levels as field and step type, (d, n <= 8) a chain of n GENERIC "
+                                              "aliases each instantiating the previous generic alias twice - accepts the model within 8 x the fitted instruction count of the unchanged tree"))
+
 def c10_yaml_key(aid, events, outs):
     o = {x["key"]: (x.get("val") or "") for x in outs}
     detail = o.get("unmarshal-panic") or o.get("validate-panic") or o.get("parse-error") or o.get("validation-error") or ""
@@ -391,6 +423,18 @@ C04_DETERMINES_PART = (G, "gosym_part", dict(name="c04_determines", entry="inter
                                required_sites=("wire-edit-changes-schema", "same-model-same-schema"), assumptions=C04_ASSUME,
                                desc="one wire-affecting edit (symbolic new primitive / key / enum base / vector length / array dimension, or unnamed fixed-array dimension, field type of an imported record sharing its simple name with a local one, or one of 10 structural edits): "
                                     "schema text differs whenever the edit changes the wire plan, and is identical otherwise"))
+
+C04_TYPEARGS_PART = (G, "gosym_part", dict(name="c04_determines_type_arguments", entry="internal/zzverif.C04TypeArgs", args_quick=(1,), args_thorough=(0,),
+                               required_sites=("wire-edit-changes-schema", "same-model-same-schema", "schema-lists-every-type-the-protocol-depends-on", "base-validates", "edited-validates"),
+                               assumptions=["model family: harness zz_c04_typeargs.go: a record / enum / alias of Ns or a record of the imported Lib that the protocol reaches ONLY as a type "
+                                            "argument X of Pair<X,int>, Lib.Box<X>, Opt<X> (= X?), Lib.Seq<X> (= X*), Lib.Box<Pair<int,X>>, Pair<Lib.Seq<X>,string>, LocalBox<X> (= Lib.Box<X>), "
+                                            "Lib.Box<X*>, written as step type / stream item / record field / closed alias (quick: two of the four placements per carrier)",
+                                            "closure oracle: reachability over the model as written (names before validation), following definitions' bodies and type arguments; type parameters "
+                                            "and primitives are leaves",
+                                            C04_ASSUME[1]],
+                               desc="definitions reachable only through a type argument of a generic instantiation: the schema lists every named type the protocol's encoding depends on, and "
+                                    "one wire-affecting edit of such a definition (symbolic new field primitive / enum base / alias target, fields reordered or dropped, enum value changed or "
+                                    "symbol added, alias target made optional / a vector) changes the schema text; the same model gives the same text"))
 
 # ---- emitted C++ schema tables (protocols.h + protocols.cc read back as one translation unit) --
 C04_CPP_SCHEMAS_PART = (G, "gosym_part", dict(name="c04_cpp_schema_tables", entry="internal/zzverif.C04CppSchemas", args_quick=(2, 6, 3), args_thorough=(3, 6, 4),
@@ -612,7 +656,7 @@ PARTS = {
         (G, "gosym_part", dict(name="c19_conversion_chains_binary", entry="internal/zzverif.C19Conversions", args_quick=(1,), args_thorough=(1,), **C19_CONV)),
         (G, "gosym_part", dict(name="c19_conversion_chains_switch", entry="internal/zzverif.C19Conversions", args_quick=(2,), args_thorough=(2,), **C19_CONV)),
     ],
-    "C10": [C10_FORMS[f] for f in (0, 1, 3, 4, 5)] + [only_thorough(C10_FORMS[f]) for f in (2, 6)] + C10_SHAPES + [C10_GRAPH_PART, C10_PARSER_PART, C10_DEFUSE_PART] + C10_YAML,  # C10_GRAPH_PART: no hang / panic of the package loader for any import graph
+    "C10": [C10_FORMS[f] for f in (0, 1, 3, 4, 5)] + [only_thorough(C10_FORMS[f]) for f in (2, 6)] + C10_SHAPES + [C10_GRAPH_PART, C10_PARSER_PART, C10_DEFUSE_PART, C10_BUDGET_PART] + C10_YAML,  # C10_GRAPH_PART: no hang / panic of the package loader for any import graph
     "C09": [
         (G, "gosym_part", dict(name="c09_base", entry="internal/zzverif.C09Base", required_sites=("base-accepted",), assumptions=C09_ASSUME,
                                desc="the unmodified two-namespace base model validates (guards against an over-rejecting harness)")),
@@ -637,6 +681,25 @@ PARTS = {
                                desc="the 16 type-level rule violations written as (part of) a type argument of the 10 generic carriers x {main, imported namespace} "
                                     "(quick: as record field, and a stream also as type argument of a protocol step; thorough: x {record field, alias, protocol step}): "
                                     "the real dsl.Validate returns an error naming the offending file")),
+        (G, "gosym_part", dict(name="c09_scopes", entry="internal/zzverif.C09Scopes", key_fn=c09_key,
+                               required_sites=("violation-rejected", "error-names-offending-file", "own-type-parameter-accepted", "no-panic"), assumptions=C09_GENERIC_ASSUME,
+                               desc="scope of type-parameter names: a reference spelled like a type parameter of ANOTHER definition (symbolic name: second parameter of an earlier "
+                                    "generic record / parameter of an earlier generic alias of the same namespace, of the base model's Pair, of a generic of an imported namespace, of a "
+                                    "generic only the imported namespace has, of a LATER definition, or nobody's) at 13 positions (the 10 of c09_type_rules, argument of a nested "
+                                    "imported generic, map key, computed-field conversion target) x host definition {not generic, generic with other parameters, declares the name "
+                                    "itself} x {main, imported namespace}: rejected naming the file, unless the host declares the name (then accepted)")),
+        (G, "gosym_part", dict(name="c09_subscripts", entry="internal/zzverif.C09Subscripts", args_quick=(0,), args_thorough=(1,), key_fn=c09_key,
+                               extra_thorough=("-max-paths", "100000"),
+                               required_sites=("violation-rejected", "error-names-offending-file", "well-typed-subscript-accepted", "no-panic"),
+                               assumptions=C09_ASSUME[:1] + ["every subscript is well-shaped (argument count, labels naming the dimensions in order, literal 0 inside fixed bounds): only the static "
+                                                             "types of the argument expressions vary; integral = the signed / unsigned integer primitives, their documented aliases and size",
+                                                             "map lookups: the argument is a field of a bare primitive type; accepted iff it is the key type up to the documented primitive aliases "
+                                                             "(size vs uint64 keys: no verdict asserted, the docs call size 'equivalent to' uint64 without calling it an alias)",
+                                                             "quick: argument forms field of a symbolic primitive out of {int, uint64, float, string, bool} / int, float, string literal / vector field / "
+                                                             "optional field; thorough: 10 primitives, plus alias-typed field, conversion, sum with a literal, another computed field (at most one argument of these)"],
+                               desc="an ill-typed computed field is rejected: element access on a vector / fixed vector / array[x] / array[x,y] / array[x:2,y:3] / array[2,3] / array[,] / "
+                                    "array[] / map, positional or labelled, target field written inline / through an alias / on a sub-record, 1-2 arguments of symbolic static type: the real "
+                                    "dsl.Validate accepts iff every index argument is integral (map: has the key type), otherwise rejects naming the file")),
         C13_LAYOUT_PARTS[1],  # a violation in any model file of any layout (sub-directories, hidden neighbours, several documents) is rejected
     ],
     "C13": [
@@ -696,6 +759,7 @@ PARTS = {
     "C15": [
         C04_EMBED_PART,
         C04_DETERMINES_PART,   # a reader can only refuse a foreign stream if wire-different models have different schema texts
+        C04_TYPEARGS_PART,     # ... also when the difference sits in a definition reached only through a type argument
         C04_CPP_SCHEMAS_PART,  # the generated C++ reader maps exactly the schema texts of the listed versions to a version and refuses every other text (incl. the empty one)
         (CC, "c15_cc_header", dict()),
         (PY, "c15_py_header", dict()),
@@ -708,6 +772,7 @@ PARTS = {
                                desc="real dsl.Validate + GetProtocolSchemaString on a symbolic model, twice: plain vs decorated with comments on every commentable node, "
                                     "a computed field, unrelated definitions/protocol, reversed definition order, other file and symbolic line offset: schema text identical")),
         C04_DETERMINES_PART,
+        C04_TYPEARGS_PART,
         C04_CPP_SCHEMAS_PART,  # every header the generated C++ writer emits carries the schema of the version it is written for
     ],
     "C11": [
@@ -950,10 +1015,6 @@ PARTS = {
                                                "cwd-is-package-dir-when-idle", "watcher-keeps-running"),
                                assumptions=C20_ASSUME + C20V_ASSUME,
                                desc=C20V_DESC + "; patient editor (waits for the watcher to go idle between saves; args: saves, impatient=0, preemptions=0, number of field types)")),
-        (G, "gosym_part", dict(name="c20_versions_interleaved", entry="internal/cmd.VerifC20Versions", args_quick=(2, 1, 1, 1), args_thorough=(2, 1, 1, 1), tiers=("thorough",),
-                               extra_quick=("-replay-sample", "4", "-max-paths", "3000000"), extra_thorough=("-replay-sample", "4", "-max-paths", "3000000"),
-                               required_sites=("every-referenced-directory-watched", "converged-to-one-shot-output", "watcher-keeps-running"),
-                               assumptions=C20_ASSUME + C20V_ASSUME, desc=C20V_DESC + "; impatient editor: two saves (field type long), every interleaving within one preemption")),
     ],
     "C14": [
         (G, "gosym_part", dict(name="c14_type_plans", entry="internal/zzverif.C14Type", args_quick=(1, 1), args_thorough=(2, 1),
